@@ -48,7 +48,11 @@ type Request struct {
 	// Ctx is the context group: requests with the same group share ONE
 	// context object (and one request span); different groups have distinct
 	// contexts.
-	Ctx        int                 `json:"ctx"`
+	Ctx int `json:"ctx"`
+	// SpanOf is the context group whose request span this group's context
+	// carries (distinct contexts derived from one span-carrying parent, e.g.
+	// per-request contexts below one connection span). -1 / own id = own span.
+	SpanOf     int                 `json:"span_of"`
 	DeadlineMs int                 `json:"deadline_ms,omitempty"` // >0: context.WithTimeout on the group's context
 	Meta       map[string][]string `json:"meta,omitempty"`        // client metadata of the group's context
 }
@@ -129,6 +133,9 @@ func (s *Scenario) Summary() string {
 	var reqs []string
 	for i, r := range s.Reqs {
 		x := fmt.Sprintf("r%d:%d items/ctx%d", i, r.Items(), r.Ctx)
+		if r.SpanOf != r.Ctx && s.Spans {
+			x += fmt.Sprintf("/span of ctx%d", r.SpanOf)
+		}
 		if r.DeadlineMs > 0 {
 			x += fmt.Sprintf("/deadline %dms", r.DeadlineMs)
 		}
